@@ -657,10 +657,8 @@ class MacroProgram(ElementProgram):
                         [nodes.Attribute(
                             attr.name, attr.expression, attr.quote,
                             attr.eq, attr.space, attr.default, ())
-                         for attr in attributes if
-                         isinstance(attr, nodes.Attribute) and
-                         isinstance(attr.expression, ast.Constant) and
-                         isinstance(attr.expression.value, str)]
+                         for attr in map(self._static_attribute, attributes)
+                         if attr is not None]
                     )
                 )
                 if end_tag is None:
@@ -1014,6 +1012,19 @@ class MacroProgram(ElementProgram):
             attributes.append(value)
 
         return (attributes, filtering[0])
+
+    @staticmethod
+    def _static_attribute(attr):
+        # A static attribute is one, too, when it is translated (it is
+        # then wrapped in a definition of ``default``).
+        attr = getattr(attr, 'node', attr)
+        if isinstance(attr, nodes.Attribute):
+            value = attr.expression
+            if isinstance(value, nodes.Translate):
+                value = value.node
+            if isinstance(value, ast.Constant) and \
+                    isinstance(value.value, str):
+                return attr
 
     def _create_static_attributes(self, prepared):
         static_attrs = {}
